@@ -42,6 +42,7 @@ type loopInfo struct {
 }
 
 type FnCtx struct {
+	secondRunFailed bool
 	entryLocks       map[string]string // lock arrays at entry for locks declared `entry-held`
 	lazyAx           map[*Axiom]int
 	eng              *Engine
@@ -144,6 +145,20 @@ func (fx *FnCtx) oblige(st *State, name, kind string, cl *Clause, goal string) {
 	r := fx.sol.CheckNeg(goal, func(get func([]string) map[string]string) {
 		inputs = fx.extractInputs(get)
 	})
+	if r.Status != "unsat" && r.Status != "sat" && fx.eng.Baseline != nil && fx.eng.Baseline[name] && !fx.secondRunFailed {
+		// discharged on the unchanged tree but not decided now: before this is reported as a violation, give the
+		// solvers a second, much longer run (a loaded or slower machine must not turn a slow proof into an alarm)
+		r2 := portfolio(fx.sol.script(), goal, nil, 60000)
+		r2.Ms += r.Ms
+		if r2.Status == "unsat" {
+			r2.Backend += "(second run)"
+			r = r2
+		} else {
+			r.Ms = r2.Ms
+			r.Raw += " | second run (60 s): " + r2.Raw
+			fx.secondRunFailed = true // this function has a real problem: no further second runs for it
+		}
+	}
 	o.Ms += r.Ms
 	o.Backends[r.Backend]++
 	if os.Getenv("TURNVC_TRACE") != "" && (r.Ms > 500 || r.Status != "unsat") {
